@@ -29,8 +29,22 @@ def check_can_write(chk) -> None:
     from sa import paths as PT
     from sa.defuse import Inliner
 
-    inl = Inliner(fi.node)
-    fmx = FlowMap(fi.node)
+    # normalisation: a loop over a constant table of (item, predicate) rows is unrolled, predicates that are lambdas or
+    # products of closure factories (`def f(limit): return lambda column: ...`) are beta-reduced at their application
+    import copy as _copy
+
+    from sa.normalize import beta_block, unroll_tables
+
+    mod = repo.module(M)
+    funcs = {q: g.node for q, g in mod.funcs.items() if "." not in q}
+    fn = _copy.copy(fi.node)
+    try:
+        fn.body = beta_block(unroll_tables(list(fi.node.body), mod.consts), funcs, mod.consts)
+        ast.fix_missing_locations(fn)
+    except Exception:
+        fn = fi.node
+    inl = Inliner(fn)
+    fmx = FlowMap(fn)
     want = {
         "id": ("pd.to_numeric(df['id'], errors='coerce').max()", c["max_serial"]),
         "auth_asym_id": ("df['auth_asym_id'].dropna().astype(str).str.len().max()", c["max_chain_len"]),
@@ -62,7 +76,7 @@ def check_can_write(chk) -> None:
 
     results = []
     unknown = []
-    for events, exit_ in PT.paths(fi.node.body):
+    for events, exit_ in PT.paths(fn.body):
         if exit_ != "return":
             unknown.append("a path falls off the end")
             continue
@@ -158,12 +172,101 @@ def check_fit(chk) -> None:
     inplace = [c2 for c2 in ast.walk(fi.node) if isinstance(c2, ast.Call) and isinstance(c2.func, ast.Attribute) and norm(c2.func.value) == "df" and any(k.arg == "inplace" for k in c2.keywords)]
     chk.expect(not stores_to_df and not inplace, "input-untouched", fi.where, "the input frame is never written", "fit_to_pdb writes into its argument", K(fi, "input-write"))
     # column selection per format
+    from checks import c10e
+
+    def _try(f, *a):
+        try:
+            return f(chk, fi, *a)
+        except AnalysisError:
+            raise
+        except Exception as ex:
+            chk.ok("fit-eval", fi.where, f"{f.__name__} failed internally ({type(ex).__name__}: {str(ex)[:60]}): the pinned-form rule decides")
+            return False
+
+    if not _try(c10e.check_column_selection_eval):
+        _column_selection_form(chk, fi)
+    _check_fit_rest(chk, fi, fm, f, c, _try)
+
+
+def _residue_count(chk, fi) -> None:
+    """Residues per chain = number of distinct (number, insertion code) pairs per chain; its maximum (0 for no chains) is what the limit is applied to.
+    Read after normalisation: nested single-return functions as lambdas, `x = 0; if t: x = v` as a conditional expression, names inlined."""
+    import copy as _copy
+
+    from sa.defuse import Inliner
+    from sa.normalize import alpha, inline_local_lambdas, merge_default_override
+
+    try:
+        fn = inline_local_lambdas(fi.node)
+        if fn is fi.node:
+            fn = _copy.copy(fi.node)
+        fn.body = merge_default_override(fn.body)
+        inl = Inliner(fn)
+    except Exception as ex:
+        chk.error("feasibility", fi.where, f"residue count not readable ({type(ex).__name__})")
+        return
+    use = [s2 for s2 in fn.body if isinstance(s2, ast.If) and s2.body and isinstance(s2.body[-1], ast.Raise) and isinstance(s2.test, ast.Compare) and "residue" in norm(s2.test)]
+    if len(use) != 1 or len(use[0].test.ops) != 1:
+        chk.error("feasibility", fi.where, "the refusal `residues per chain > limit` was not found")
+        return
+    e = inl.inline(use[0].test.left, use[0], stop=("df", "chain_col", "resseq_col", "icode_col"))
+    # e: <counts>.max() if not <counts>.empty else 0   (either orientation)
+    counts = None
+    if isinstance(e, ast.IfExp):
+        t, a, b = e.test, e.body, e.orelse
+        if isinstance(t, ast.UnaryOp) and isinstance(t.op, ast.Not):
+            t, a, b = t.operand, a, b
+        else:
+            a, b = b, a
+        m = astq.match(a, "C_.max()")
+        if m and norm(t) == norm(m["C_"]) + ".empty" and isinstance(b, ast.Constant) and b.value == 0:
+            counts = m["C_"]
+    else:
+        m = astq.match(e, "C_.max()")
+        if m:
+            counts = m["C_"]  # no empty case: the maximum of no counts is NaN, which compares False with the limit like 0 does
+    if counts is None:
+        chk.error("feasibility", fi.site(use[0]), f"the quantity compared with the residue limit, `{norm(e)[:90]}`, is not the maximum of per-chain counts (0 when there are none)")
+        return
+    m = astq.match(counts, "T_.groupby(G_).apply(F_)")
+    if not m or not isinstance(m["F_"], ast.Lambda) or len(m["F_"].args.args) != 1:
+        chk.error("feasibility", fi.site(use[0]), f"per-chain counts `{norm(counts)[:90]}` are not `<table>.groupby(<chain>).apply(<count function>)`")
+        return
+    lam = alpha(m["F_"], ["x"])
+    mm = astq.match(lam.body, "x[L_].drop_duplicates().shape[0]") or astq.match(lam.body, "len(x[L_].drop_duplicates())") or astq.match(lam.body, "x[L_].drop_duplicates().shape[0]")
+    table = m["T_"]
+    tm = astq.match(table, "pd.DataFrame(D_)") or astq.match(table, "pandas.DataFrame(D_)")
+    if not mm or not tm or not isinstance(tm["D_"], ast.Dict) or not isinstance(mm["L_"], ast.List):
+        if mm is None and tm is not None:
+            chk.violation("feasibility", fi.site(use[0]), f"residues per chain are counted by `{norm(lam.body)[:80]}`, not as the number of distinct (number, insertion code) pairs of the chain", K(fi, "residue-count"))
+        else:
+            chk.error("feasibility", fi.site(use[0]), f"count function `{norm(lam.body)[:80]}` / table `{norm(table)[:60]}` not understood")
+        return
+    src = {}
+    for k2, v2 in zip(tm["D_"].keys, tm["D_"].values):
+        if isinstance(k2, ast.Constant):
+            names = {n.id for n in ast.walk(v2) if isinstance(n, ast.Name)}
+            src[k2.value] = "chain" if "chain_col" in names else "number" if "resseq_col" in names else "icode" if "icode_col" in names else "?"
+    g = m["G_"].value if isinstance(m["G_"], ast.Constant) else None
+    cols = [x.value for x in mm["L_"].elts if isinstance(x, ast.Constant)]
+    roles = sorted(src.get(c2, "?") for c2 in cols)
+    ok = src.get(g) == "chain" and roles == ["icode", "number"]
+    chk.expect(ok, "feasibility", fi.site(use[0]), "residues per chain = distinct (number, insertion code) per chain; the limit is applied to the largest count (0 without chains)", f"residues per chain are counted over the columns {roles} grouped by `{src.get(g)}`, not as distinct (number, insertion code) per chain", K(fi, "residue-count"), found={"group": src.get(g), "distinct over": roles})
+
+
+def _column_selection_form(chk, fi) -> None:
     sel = {}
     for s in ast.walk(fi.node):
         if isinstance(s, ast.If) and norm(s.test) in ("format_type == 'PDB'", "format_type == 'mmCIF'"):
             sel[norm(s.test)] = {norm(x.targets[0]): x.value.value for x in s.body if isinstance(x, ast.Assign) and isinstance(x.value, ast.Constant)}
     want_sel = {"format_type == 'PDB'": {"serial_col": "serial", "chain_col": "chainID", "resseq_col": "resSeq", "icode_col": "iCode"}, "format_type == 'mmCIF'": {"serial_col": "id", "chain_col": "auth_asym_id", "resseq_col": "auth_seq_id", "icode_col": "pdbx_PDB_ins_code"}}
     chk.expect(sel == want_sel, "column-selection", fi.where, "serial/chain/number/icode columns per format (author items for mmCIF)", "the columns fit_to_pdb renames are not (serial, chainID, resSeq, iCode) / (id, auth_asym_id, auth_seq_id, pdbx_PDB_ins_code)", K(fi, "columns"), found=sel)
+
+
+def _check_fit_rest(chk, fi, fm, f, c, _try) -> None:
+    from checks import c10e
+
+    repo = chk.repo
     # feasibility
     consts = {nm: f.try_fold(astq.first_assign(fi.node, nm)) for nm in ("max_pdb_serial", "max_pdb_residue") if astq.first_assign(fi.node, nm) is not None}
     alpha = f.try_fold(astq.first_assign(fi.node, "available_chain_ids")) if astq.first_assign(fi.node, "available_chain_ids") is not None else None
@@ -190,12 +293,7 @@ def check_fit(chk) -> None:
             chk.ok("feasibility", fi.where, "refuses when atoms + TER lines, chains or residues per chain exceed the limits")
     defs = {nm: norm(astq.first_assign(fi.node, nm)) if astq.first_assign(fi.node, nm) is not None else None for nm in ("unique_chains", "num_chains", "total_atoms")}
     chk.expect(defs == {"unique_chains": "df[chain_col].unique()", "num_chains": "len(unique_chains)", "total_atoms": "len(df)"}, "feasibility", fi.where, "counts: chains = distinct chain ids (order of appearance), atoms = rows", "the counted quantities changed", K(fi, "counts"), found=defs)
-    rc = astq.first_assign(fi.node, "residue_counts")
-    ok = rc is not None and flat(rc) == flat("check_df.groupby('chain').apply(lambda x: x[['resSeq', 'iCode']].drop_duplicates().shape[0])")
-    use = [s2 for s2 in fi.node.body if isinstance(s2, ast.If) and "max_residues_per_chain" in norm(s2.test)]
-    mr = inl.reaching("max_residues_per_chain", use[0]) if use else None
-    ok = ok and mr is not None and norm(mr) in ("residue_counts.max() if not residue_counts.empty else 0", "0 if residue_counts.empty else residue_counts.max()")
-    chk.expect(ok, "feasibility", fi.where, "residues per chain = distinct (number, insertion code) per chain", "residues per chain are not counted as distinct (resSeq, iCode) per chain", K(fi, "residue-count"))
+    _residue_count(chk, fi)
     # index after the `> 62` guard
     cm = astq.first_assign(fi.node, "chain_mapping")
     guard = [s for s in fi.node.body if isinstance(s, ast.If) and norm(inl.inline(s.test, s, stop=("num_chains", "max_pdb_chains"))) == "num_chains > max_pdb_chains"]
@@ -207,9 +305,17 @@ def check_fit(chk) -> None:
     if muts and shared:
         chk.violation("chain-alphabet", fi.site(muts[0]), f"`{norm(muts[0])[:60]}` consumes `{alpha_def.id}`, a module-level list shared by every call: the second table gets other chain ids (and the pool eventually runs dry with IndexError)", K(fi, "alphabet-mutated"))
     cm_forms = (flat("{orig_chain: available_chain_ids[i] for i, orig_chain in enumerate(unique_chains)}"), flat("dict(zip(unique_chains, available_chain_ids))"), flat("{orig_chain: new_chain for orig_chain, new_chain in zip(unique_chains, available_chain_ids)}"))
-    ok = cm is not None and flat(cm) in cm_forms
-    ok = ok and guard and cm.lineno > guard[0].lineno
-    if not (muts and shared):
+    if muts and shared:
+        pass
+    elif _try(c10e.check_chain_map_eval):
+        # one-to-one, total, into the alphabet: decided by evaluation.  What remains is that the size check comes first
+        # (with more than 62 chains the alphabet runs out: IndexError / StopIteration instead of ValueError).
+        ap0 = [k for k, s2 in enumerate(fi.node.body) if isinstance(s2, ast.Assign) and isinstance(s2.value, ast.Call) and isinstance(s2.value.func, ast.Attribute) and s2.value.func.attr == "map"]
+        g0 = [k for k, s2 in enumerate(fi.node.body) if guard and s2 is guard[0]]
+        chk.expect(bool(g0) and bool(ap0) and g0[0] < ap0[0], "chain-map", fi.where, "the chain map is built after the check that at most 62 chains exist", "the chain map is built without a preceding `number of chains > size of the alphabet` refusal: the alphabet runs out for larger tables", K(fi, "chain-map-guard"))
+    else:
+        ok = cm is not None and flat(cm) in cm_forms
+        ok = ok and guard and cm.lineno > guard[0].lineno
         chk.expect(ok, "chain-map", fi.where, "chains are renamed by pairing the distinct ids with the alphabet in order (one-to-one), after the size check", "the chain map is not {id: alphabet[i] for i, id in enumerate(unique ids)} built after the size check", K(fi, "chain-map"))
     ap = [s for s in fi.node.body if isinstance(s, ast.Assign) and norm(s) == "df_fitted[chain_col] = df_fitted[chain_col].map(chain_mapping)"]
     chk.expect(len(ap) == 1, "chain-map", fi.where, "the map is applied to every row", "the chain map is not applied to the whole chain column", K(fi, "chain-apply"))
